@@ -273,3 +273,14 @@ class NHolder:
         namespace = "urn:base"
 
     item: Optional[NBase] = field(default=None, metadata={"type": "Element"})
+
+
+@dataclass
+class UThenInt:
+    """a union-of-models element (its candidates are tried under a stricter configuration of their own) with typed
+    values around it: what the trial needs must not reach the values outside it, nor the next document"""
+
+    before: Optional[int] = field(default=None, metadata={"type": "Element"})
+    u: Optional[Union[SLeaf, SOther]] = field(default=None, metadata={"type": "Element"})
+    n: Optional[int] = field(default=None, metadata={"type": "Element"})
+    a: Optional[int] = field(default=None, metadata={"type": "Attribute"})
